@@ -751,6 +751,10 @@ RUNNERS["C17"] = run_C17
 # ------------------------------------------------------------------ C18 (virtual and partitioned arrays)
 VIRT_OPS = ('{[op |-> "length"], [op |-> "type"], [op |-> "tojson"], [op |-> "at", i |-> 0], [op |-> "at", i |-> -1], '
             '[op |-> "range", a |-> 1, b |-> 3], [op |-> "range_lazy", a |-> 0, b |-> 2], [op |-> "num", axis |-> 0], [op |-> "carry"], [op |-> "validity"]}')
+# depth questions and reductions of lazily sliced virtual arrays (records of one shape per set: TLC compares records of a set)
+VIRT_OPS_DEPTH = ('{[op |-> "depths", sk |-> "", a |-> 0, b |-> 0, axis |-> 0], [op |-> "tojson", sk |-> "", a |-> 0, b |-> 0, axis |-> 0]} \\cup '
+                  '{[op |-> "slice_depths", sk |-> k, a |-> 0, b |-> 2, axis |-> 0] : k \\in {"newaxis", "ellipsis", "range"}} \\cup '
+                  '{[op |-> "slice_sum", sk |-> "newaxis", a |-> 0, b |-> 0, axis |-> x] : x \\in {0, 1, -1}}')
 
 
 def run_C18(ctx):
@@ -764,6 +768,11 @@ def run_C18(ctx):
     ctx.tlc_phase("virtual-interleavings", "Virtual", vc, invariants=["LazyUntilNeeded", "KeepGeneratesOnce", "NoStale", "HeldOnlyIfKeep"],
                   properties=["ErrorKeepsCache"], require_actions=["Choose", "Do", "Evict"],
                   sample_cases=(120000 if q else None), **kw)
+    # depth questions and reductions of the lazier VirtualArrays that one-item slices (newaxis, ellipsis, range) return
+    vd = dict(vc, Ops=VIRT_OPS_DEPTH, MaxSteps=str(3 if q else 4))
+    ctx.tlc_phase("virtual-lazy-slices", "Virtual", vd, invariants=["LazyUntilNeeded", "KeepGeneratesOnce", "NoStale", "HeldOnlyIfKeep"],
+                  properties=["ErrorKeepsCache"], require_actions=["Choose", "Do", "Evict"],
+                  sample_cases=(60000 if q else None), **kw)
     vc["MaxSteps"] = "9"
     kw["view"] = None
     ctx.tlc_phase("virtual-simulate", "Virtual", vc, invariants=["LazyUntilNeeded", "KeepGeneratesOnce", "NoStale", "HeldOnlyIfKeep"],
